@@ -39,6 +39,7 @@ type BinaryEntropyEncoder struct {
 	high      uint64
 	bitstream kanzi.OutputBitStream
 	disposed  bool
+	hasData   bool // true once at least one byte has been encoded
 	buffer    []byte
 	index     int
 }
@@ -113,6 +114,7 @@ func (this *BinaryEntropyEncoder) Write(block []byte) (int, error) {
 	end := count
 	length := count
 	err := error(nil)
+	this.hasData = this.hasData || count > 0
 
 	if count >= _BINARY_ENTROPY_MAX_CHUNK {
 		// If the block is big (>=64MB), split the encoding to avoid allocating
@@ -175,6 +177,13 @@ func (this *BinaryEntropyEncoder) Dispose() {
 	}
 
 	this.disposed = true
+
+	if this.hasData == false {
+		// Nothing was encoded: the decoder does not read anything for an
+		// empty block, so do not emit the final bits
+		return
+	}
+
 	this.bitstream.WriteBits(this.low|_BINARY_MASK_0_24, 56)
 }
 
